@@ -256,6 +256,41 @@ class BaseSession:
             self.berte.process(DeleteQueuesJob(bert_e=self.berte, settings={}))
         return self._run('delete_queues', fn, crash_at)
 
+    def _api_job(self, name, cls_path, settings, crash_at=None):
+        import importlib
+        mod, cls = cls_path.rsplit('.', 1)
+        cls = getattr(importlib.import_module(mod), cls)
+        self.put_log = []
+
+        def fn():
+            job = cls(bert_e=self.berte, settings=dict(settings))
+            orig_put = self.berte.put_job
+            self.berte.put_job = lambda j: self.put_log.append(j)
+            try:
+                self.berte.process(job)
+            finally:
+                self.berte.put_job = orig_put
+        rec = self._run(name, fn, crash_at)
+        rec['put'] = [getattr(getattr(j, 'pull_request', None), 'id', None) for j in self.put_log]
+        return rec
+
+    def create_branch(self, branch, branch_from='', crash_at=None):
+        st = {'branch': branch}
+        if branch_from:
+            st['branch_from'] = branch_from
+        return self._api_job('create_branch %s' % branch, 'bert_e.jobs.create_branch.CreateBranchJob', st, crash_at)
+
+    def delete_branch(self, branch, crash_at=None):
+        return self._api_job('delete_branch %s' % branch, 'bert_e.jobs.delete_branch.DeleteBranchJob',
+                             {'branch': branch}, crash_at)
+
+    def rebuild_queues(self, crash_at=None):
+        return self._api_job('rebuild_queues', 'bert_e.jobs.rebuild_queues.RebuildQueuesJob', {}, crash_at)
+
+    def force_merge_queues(self, crash_at=None):
+        return self._api_job('force_merge_queues', 'bert_e.jobs.force_merge_queues.ForceMergeQueuesJob', {},
+                             crash_at)
+
     # -- things that happen outside Bert-E -------------------------------------------------
     def user_comment(self, pid, author, text):
         p = self.host.prs[pid]
@@ -269,7 +304,8 @@ class BaseSession:
         recs = []
         for ev in script:
             kind, args = ev[0], ev[1:]
-            if kind in ('eval_pr', 'eval_commit', 'eval_queues', 'delete_queues'):
+            if kind in ('eval_pr', 'eval_commit', 'eval_queues', 'delete_queues', 'create_branch',
+                        'delete_branch', 'rebuild_queues', 'force_merge_queues'):
                 if kind == 'eval_commit' and not self.has_ref(args[0]):
                     continue
                 recs.append(getattr(self, kind)(*args))
@@ -279,6 +315,9 @@ class BaseSession:
                 self.third_party_commit(*args)
             elif kind == 'comment':
                 self.user_comment(*args)
+            elif kind == 'uncomment':          # the user deletes his comments with that text
+                p = self.host.prs[args[0]]
+                p.comments = [c for c in p.comments if not (c.author != ROBOT and c.text == args[1])]
             elif kind == 'decline':
                 self.decline(args[0])
             elif kind == 'new_server':
